@@ -94,13 +94,13 @@ def mc_array(mc, n_model, n_global):
     return np.array([[mc["cols"][l][i] for l in range(len(mc["labels"]))] for i in range(n_model)], dtype=float)
 
 
-def build(case, *, extra_free=True, max_nfev=None, method="TrustRegionReflection"):
+def build(case, *, extra_free=True, max_nfev=None, method="TrustRegionReflection", free_model_params=False):
     """Return (scheme, info). Every integer of the case enters through a (fixed) parameter where the model takes parameters."""
     params = {"free": [["unused", 1.0, {"vary": True}]]} if extra_free else {}
     fixed = []
 
     def P(name, value):
-        fixed.append([name, float(value), {"vary": False}])
+        fixed.append([name, float(value), {"vary": bool(free_model_params)}])
         return f"c.{name}"
 
     md = {"megacomplex": {}, "dataset": {}, "dataset_groups": {}}
@@ -178,4 +178,34 @@ def objective(scheme):
     o = Optimizer(scheme, verbose=False, raise_exception=True)
     labels, x0, _, _ = scheme.parameters.get_label_value_and_bounds_arrays(exclude_non_vary=True)
     o._free_parameter_labels = labels
+    o._verif_x0 = x0
     return np.asarray(o.objective_function(x0)), o
+
+
+def variant(case):
+    """The same scheme at another value of its non-linear (model) parameters: scales, relation and penalty parameters changed."""
+    import copy
+    c = copy.deepcopy(case)
+    changed = False
+    for d in c["datasets"]:
+        if d.get("scale", 1) != 1:
+            d["scale"] = d["scale"] + 1 if d["scale"] < 3 else 2
+            changed = True
+        if any(m.get("scale", 1) != 1 for m in d["mcs"]):
+            for m in d["mcs"]:
+                if m.get("scale", 1) != 1:
+                    m["scale"] = m["scale"] + 1      # stays != 1, so the set of parameters is unchanged
+            changed = True
+    for r in c.get("relations", []):
+        r["param"] = 3 - r["param"]
+        changed = True
+    for p in c.get("penalties", []):
+        p["param"] = 3 - p["param"]
+        changed = True
+    return c if changed else None
+
+
+def x_of(case):
+    scheme = build(case, free_model_params=True)
+    labels, x, _, _ = scheme.parameters.get_label_value_and_bounds_arrays(exclude_non_vary=True)
+    return labels, x
